@@ -257,6 +257,7 @@ struct C15 : Scenario {
 		o.hard_perms = false;
 		o.explicit_dirs_only = rng.chance(1, 2);
 		o.uniform_level = rng.chance(1, 2);
+		o.abs_mix = rng.chance(1, 8);   // "/a/x" beside "a/": two spellings, two different paths as far as the reader is concerned
 		gen_tree(rng, o, p.members);
 		size_t nt = rng.chance(3, 5) ? 1 : (rng.chance(3, 4) ? 2 : 3);
 		for (size_t k = 0; k < nt; ++k) {
@@ -465,6 +466,7 @@ struct C20 : Scenario {
 		p.tasks.push_back(t);
 		// refusals by the filesystem during extraction: the failure paths release everything as well
 		gen_fs_refusals(rng, p, "/w/t0");
+		if (t.kind == "BY_NAME" && rng.chance(1, 4)) p.sets("byname", rng.chance(1, 2) ? "dir" : "missing");
 		return p;
 	}
 	// one evaluation on a fresh filesystem
@@ -483,7 +485,11 @@ struct C20 : Scenario {
 			t.kind = "FILE_SEEK";
 			o.by_name = true;
 			o.by_name_path = "/w/archive.lzh";
-			g_sim.archive_ino = fs.add_file("/w/archive.lzh", 0644, 0, 0, 1000000000, Bytes());
+			// the name may also be a directory, or nothing at all: opening fails (or yields nothing), and nothing may stay behind
+			std::string what = p.gets("byname", "file");
+			if (what == "dir") fs.add_dir("/w/archive.lzh", 0755, 0, 0, 1000000000);
+			else if (what == "file") g_sim.archive_ino = fs.add_file("/w/archive.lzh", 0644, 0, 0, 1000000000, Bytes());
+			count("kind.by_name." + what);
 		}
 		g_sim.open_handles = 0;
 		g_sim.peak_bytes = 0;
